@@ -38,6 +38,7 @@ import (
 	"github.com/zerx-lab/wordZero/pkg/markdown"
 	"github.com/zerx-lab/wordZero/pkg/style"
 
+	"verif/harness/internal/foreign"
 	"verif/harness/internal/pkgmodel"
 	"verif/harness/internal/rep"
 	"verif/harness/internal/shard"
@@ -625,6 +626,17 @@ func c01Alphabet() []c01HOp {
 		x.doc = d
 		x.refresh()
 	})
+	// a package written by another application takes the place of the document: content types the way Word
+	// declares them (jpg, not jpeg; PNG through an Override), sparse relationship ids, existing media
+	add("open-foreign(Default jpg=image/jpeg, png by Override, media, sparse ids)", func(x *c01Env) {
+		d, errS := reopen(c01ForeignWordLike())
+		if errS != "" {
+			x.note += " reopen:open-failed"
+			return
+		}
+		x.doc = d
+		x.refresh()
+	})
 	// the document built so far is used as a template: clone + substitution by the engine
 	render := func(x *c01Env, structural bool) {
 		td := document.NewTemplateData()
@@ -651,6 +663,25 @@ func c01Alphabet() []c01HOp {
 	add("template:RenderTemplateToDocument(v=hostile)", func(x *c01Env) { render(x, true) })
 	add("template:RenderToDocument(v=hostile)", func(x *c01Env) { render(x, false) })
 	return al
+}
+
+// c01ForeignWordLike is a third-party-like package whose content types are declared the way Word does.
+func c01ForeignWordLike() []byte {
+	p := foreign.New()
+	p.Defaults["jpg"] = "image/jpeg"
+	p.Defaults["emf"] = "image/x-emf"
+	p.Overrides["/word/styles.xml"] = foreign.CtStyles
+	p.Add("word/styles.xml", foreign.StylesXML())
+	p.DocRels = append(p.DocRels, foreign.Rel{ID: "rId3", Type: pkgmodel.RtStyles, Target: "styles.xml"})
+	p.Add("word/media/image1.jpg", jpegBytes(4, 2, 61))
+	p.DocRels = append(p.DocRels, foreign.Rel{ID: "rId7", Type: pkgmodel.RtImage, Target: "media/image1.jpg"})
+	p.Add("word/media/image2.png", pngBytes(3, 2, 62))
+	p.Overrides["/word/media/image2.png"] = "image/png"
+	p.DocRels = append(p.DocRels, foreign.Rel{ID: "rId12", Type: pkgmodel.RtImage, Target: "media/image2.png"})
+	body := foreign.Para("foreign") + foreign.DrawingPara("rId7", 1, 9525*4, 9525*2) + foreign.DrawingPara("rId12", 2, 9525*3, 9525*2)
+	body += `<w:sectPr><w:pgSz w:w="11906" w:h="16838"/></w:sectPr>`
+	p.Add(p.DocName, foreign.DocXML("w", body))
+	return p.Bytes()
 }
 
 // ---------------------------------------------------------------------------
